@@ -52,4 +52,19 @@ Section SignAll.
     apply text_eqb_spec in E1, E4. assert (s_alg s0 = s_alg s) as Ea by lia.
     exists s, raw, pubtxt. rewrite <- E1, <- Ea, <- E4. repeat split; auto.
   Qed.
+  (* and nothing else signs: every signature of the response bundle was made by one of the slot's signers *)
+  Theorem every_signature_from_a_signer i b schema ms ttl sn kks validate rb :
+    sign_bundle Hh token_sign verify ds_hex i b schema ms ttl sn kks validate = OK rb ->
+    exists act sks, lookup_slot i schema = Some act /\ fetch_keys ds_hex (a_sign act) b ms ttl kks false = OK sks /\
+      forall s, In s (b_sigs rb) -> exists sk, In sk sks /\ s_id s = k_id (ck_dns sk) /\ s_alg s = k_alg (ck_dns sk).
+  Proof.
+    unfold sign_bundle. destruct (lookup_slot i schema) as [act|]; [|discriminate]. intros H.
+    apply bind_ok_inv in H as (pubs & _ & H). apply bind_ok_inv in H as (revs & _ & H). apply bind_ok_inv in H as (k2 & _ & H).
+    apply bind_ok_inv in H as (sks & Hsks & H). apply bind_ok_inv in H as (sigs0 & Hsig & H).
+    destruct (negb _); [discriminate H|]. apply bind_ok_inv in H as (u & _ & H). injection H as <-. cbn [b_sigs].
+    exists act, sks. split; [reflexivity|]. split; [exact Hsks|]. intros s Hs. apply dedup_sub in Hs.
+    destruct (sign_all_in Hh token_sign verify _ _ _ _ _ _ _ Hsig Hs) as (sk & Hsk & Hk).
+    apply (signed_fields Hh token_sign verify ds_hex) in Hk as (_ & _ & _ & _ & _ & _ & _ & A8 & A9 & _).
+    exists sk. auto.
+  Qed.
 End SignAll.
